@@ -17,11 +17,11 @@ var strsv = []string{"", "a", "hello", "héllo", "日本", "\x00", "\"quote\\", 
 
 // Opts steers the random message generator.
 type Opts struct {
-	MaxDepth   int
-	BadUTF8    bool // may put invalid UTF-8 into string fields
-	SNaN       bool // may generate signaling NaNs for float32
-	FieldProb  int  // 1/FieldProb of populating each field
-	NegZero    bool
+	MaxDepth  int
+	BadUTF8   bool // may put invalid UTF-8 into string fields
+	SNaN      bool // may generate signaling NaNs for float32
+	FieldProb int  // 1/FieldProb of populating each field
+	NegZero   bool
 }
 
 func scalar(c *vh.Ctx, fd protoreflect.FieldDescriptor, o Opts) protoreflect.Value {
@@ -195,4 +195,3 @@ func randUnknown(c *vh.Ctx, md protoreflect.MessageDescriptor) []byte {
 	}
 	return b
 }
-
